@@ -29,3 +29,9 @@ CLAIMS["C16"] = (
  "Trusted: yaml mapping nodes have even Content length (table entry); compiler check_bce; go/ssa.",
  "static analysis: SSA value-flow between split, unescape and lookup; constant-table extraction; compiler-enumerated bounds obligations",
 )
+CLAIMS["C08"] = (
+ "other",
+ "Decided: every constant the converter substitutes denotes the ECMA-262 set it stands for (dot, \\s, \\S, [] and [^]; the denotation of each constant is computed with regexp/syntax and compared with sets frozen from ECMA-262 §12.2/§12.3); the fallback wiring that makes 'never approximated' and 'reports its original text' hold (Convert says ok only when parsing recorded no error; look-around, back-references and \\S-in-class record one; Compile hands the ORIGINAL pattern with ECMAScript|Unicode to regexp2 on every path that does not return a goRegexp built under both success edges; orig/String() carry the original); and all compiler-unproven bounds checks of the package are discharged (nine by reviewed parser-invariant entries). Language equality of an arbitrary pattern and its rewriting (the token-level rewriting loop) is NOT decided.",
+ "Trusted: regexp/syntax as evaluator of constant classes; reference sets frozen from ECMA-262; regexp2.Regexp.String returns its source; reviewed table entries for the parser's offset invariant.",
+ "static analysis: constant-table denotation check, SSA dominance/dataflow on Compile/Convert, compiler-enumerated bounds obligations",
+)
